@@ -6,6 +6,7 @@ import Driver.C17
 import Driver.C15
 import Driver.C07
 import Driver.C08
+import Driver.C06
 open Driver
 
 def dispatch (id : String) (toks : List String) (impl : String) : Verdict :=
@@ -17,6 +18,7 @@ def dispatch (id : String) (toks : List String) (impl : String) : Verdict :=
   | "C15" => Driver.C15.handle toks impl
   | "C07" => Driver.C07.handle toks impl
   | "C08" => Driver.C08.handle toks impl
+  | "C06" => Driver.C06.handle toks impl
   | _ => badOp "unknown property"
 
 /-- Split `line` at the first occurrence of " => ". -/
